@@ -231,6 +231,11 @@ def localOrder : ATree → Bool
     (match r with | node kr .. => decide (k ≤ kr) | nil => true) &&
     l.localOrder && r.localOrder
 
+/-- AVL balance on the structural heights, as a Boolean function (what the driver evaluates) -/
+def shapeBalanced : ATree → Bool
+  | nil => true
+  | node _ _ _ l r => decide (l.sh ≤ r.sh + 1) && decide (r.sh ≤ l.sh + 1) && l.shapeBalanced && r.shapeBalanced
+
 /-- AVL balance stated on the shape of the tree alone -/
 def Balanced : ATree → Prop
   | nil => True
